@@ -41,14 +41,18 @@ func run(r *ev.Run) {
 	r.Rule("E3, one process per server_id configuration. v6: configured DUID {LL,LLT x 2 MAC spellings} x message type {0..14,255} x Server Identifier {absent, equal, same MAC other DUID kind, other MAC, EN, UUID, equal-prefix-longer, equal-prefix-shorter} x relay depth 0..2, both as a direct handler call (all types) and through HandleMsg6 (supported types, reply bytes inspected). v4: server_id {dotted, v4-mapped, other} x siaddr {0, own, other} x option 54 {absent, own, other, 0.0.0.0 (not asserted)} x {DISCOVER, REQUEST} through HandleMsg4. Reference: RFC 8415 s.16 table / the statement's v4 rule. Class = proto/type/sid variant/outcome.")
 	r.Assume("requests with several Server Identifier options and option 54 = 0.0.0.0 are enumerated but not asserted")
 	for _, a := range configs6 {
-		res := reg.Spawn(r, "C14", 5*time.Minute, append([]string{"6"}, a...)...)
-		if res.Died {
+		res := reg.Spawn(r, "C14", 15*time.Minute, append([]string{"6"}, a...)...)
+		if res.Hung {
+			r.Capped("worker for server_id " + strings.Join(a, " ") + " exceeded its 15 min budget")
+		} else if res.Died {
 			r.Violate("C14/worker-died/v6", "worker for server_id "+strings.Join(a, " ")+" died: "+res.Output, Case{Proto: 6, Args: a})
 		}
 	}
 	for _, a := range configs4 {
-		res := reg.Spawn(r, "C14", 5*time.Minute, append([]string{"4"}, a...)...)
-		if res.Died {
+		res := reg.Spawn(r, "C14", 15*time.Minute, append([]string{"4"}, a...)...)
+		if res.Hung {
+			r.Capped("worker for server_id " + strings.Join(a, " ") + " exceeded its 15 min budget")
+		} else if res.Died {
 			r.Violate("C14/worker-died/v4", "worker for server_id "+strings.Join(a, " ")+" died: "+res.Output, Case{Proto: 4, Args: a})
 		}
 	}
